@@ -1,0 +1,37 @@
+//go:build verif
+
+package build
+
+// Verification hook (add-only, guarded by the "verif" build tag): exposes the go/build
+// context that goCtx derives from an Env, so that the facts the C18 theorems quantify
+// over (default tags, release tags, GOOS/GOARCH, compiler, cgo) are read from the code.
+
+// VerifGoCtxFacts is what goCtx(e) configures go/build with.
+type VerifGoCtxFacts struct {
+	GOOS, GOARCH, Compiler string
+	BuildTags              []string
+	ToolTags               []string
+	ReleaseTags            []string
+	CgoEnabled             bool
+	DefaultBuildTags       []string
+}
+
+// VerifGoCtx returns the facts of goCtx(e).
+func VerifGoCtx(e Env) VerifGoCtxFacts {
+	c := goCtx(e)
+	return VerifGoCtxFacts{
+		GOOS: c.bctx.GOOS, GOARCH: c.bctx.GOARCH, Compiler: c.bctx.Compiler,
+		BuildTags:        append([]string{}, c.bctx.BuildTags...),
+		ToolTags:         append([]string{}, c.bctx.ToolTags...),
+		ReleaseTags:      append([]string{}, c.bctx.ReleaseTags...),
+		CgoEnabled:       c.bctx.CgoEnabled,
+		DefaultBuildTags: append([]string{}, defaultBuildTags...),
+	}
+}
+
+// VerifStdTweak returns the GOOS/GOARCH that applyPreloadTweaks selects for importPath.
+func VerifStdTweak(e Env, importPath, srcDir string) (goos, goarch string) {
+	c := goCtx(e)
+	b, _ := c.applyPreloadTweaks(importPath, srcDir, 0)
+	return b.GOOS, b.GOARCH
+}
